@@ -311,11 +311,16 @@ M("r14-sgramm-rhs-len-after-expand-benign", ["C11", "C12"], "benign",
   [("sgramm.y", "	rule.rhs_len = OS_TOP_LENGTH (srhs) / sizeof (char *);\n	OS_TOP_EXPAND (srhs, sizeof (char *));\n	rule.rhs = (char **) OS_TOP_BEGIN (srhs);\n",
     "	OS_TOP_EXPAND (srhs, sizeof (char *));\n	rule.rhs_len = OS_TOP_LENGTH (srhs) / sizeof (char *) - 1;\n	rule.rhs = (char **) OS_TOP_BEGIN (srhs);\n")])
 M("r16-pl-capacity-two-per-token", ["C12"], "break",
-  [("yaep.c", "sizeof (struct set *) * (toks_len + 1) * 2);", "sizeof (struct set *) * toks_len * 2);")], "pl_create/capacity")
+  [("yaep.c", "		 (sizeof (struct set *) + 2 * sizeof (int))\n		 * (toks_len + 1) * 2);\n  pl = (struct set **) mem;\n  pl_tok_nums = (int *) (pl + (toks_len + 1) * 2);\n  pl_orig_tok_nums = pl_tok_nums + (toks_len + 1) * 2;",
+    "		 (sizeof (struct set *) + 2 * sizeof (int))\n		 * toks_len * 2);\n  pl = (struct set **) mem;\n  pl_tok_nums = (int *) (pl + toks_len * 2);\n  pl_orig_tok_nums = pl_tok_nums + toks_len * 2;")],
+  "pl_create/capacity")
+M("r16-parallel-array-overlaps-pl", ["C12"], "break",
+  [("yaep.c", "  pl_tok_nums = (int *) (pl + (toks_len + 1) * 2);", "  pl_tok_nums = (int *) (pl + (toks_len + 1));")], "pl_create/capacity")
 M("r16-pl-capacity-exact-benign", ["C12"], "benign",
-  [("yaep.c", "sizeof (struct set *) * (toks_len + 1) * 2);", "sizeof (struct set *) * (2 * toks_len + 1));")])
+  [("yaep.c", "		 (sizeof (struct set *) + 2 * sizeof (int))\n		 * (toks_len + 1) * 2);\n  pl = (struct set **) mem;\n  pl_tok_nums = (int *) (pl + (toks_len + 1) * 2);\n  pl_orig_tok_nums = pl_tok_nums + (toks_len + 1) * 2;",
+    "		 (sizeof (struct set *) + 2 * sizeof (int))\n		 * (2 * toks_len + 1));\n  pl = (struct set **) mem;\n  pl_tok_nums = (int *) (pl + (2 * toks_len + 1));\n  pl_orig_tok_nums = pl_tok_nums + (2 * toks_len + 1);")])
 M("r16-pl-capacity-larger-benign", ["C12"], "benign",
-  [("yaep.c", "sizeof (struct set *) * (toks_len + 1) * 2);", "sizeof (struct set *) * (toks_len + 2) * 3);")])
+  [("yaep.c", "		 (sizeof (struct set *) + 2 * sizeof (int))\n		 * (toks_len + 1) * 2);", "		 (sizeof (struct set *) + 2 * sizeof (int))\n		 * (toks_len + 1) * 2 + 64);")])
 M("c10-loop-check-only-strict", ["C10", "C12"], "break",
   [("yaep.c", "  for (i = 0; (symb = nonterm_get (i)) != NULL; i++)\n    if (symb->u.nonterm.loop_p)\n      yaep_error", "  if (strict_p)\n  for (i = 0; (symb = nonterm_get (i)) != NULL; i++)\n    if (symb->u.nonterm.loop_p)\n      yaep_error")],
   "modes/YAEP_LOOP_NONTERM")
@@ -504,6 +509,12 @@ M("c03-revert-F33-shared-alt-lists", ["C04", "C03"], "break",
 M("t3-revert-F34-skip-cost-as-backward-distance", ["C06", "C12"], "break",
   [("yaep.c", "	      push_recovery_state (state.last_original_pl_el, cost + 1,\n				   state.back_toks);", "	      push_recovery_state (state.last_original_pl_el, cost + 1,\n				   cost + 1);")],
   "error_recovery/first-ignored")
+M("r16-error-shift-without-token-number", ["C12"], "break",
+  [("yaep.c", "      pl[++pl_curr] = new_set;\n      pl_tok_nums[pl_curr] = -1;\n", "      pl[++pl_curr] = new_set;\n")], "error_recovery/pl-store")
+M("r16-restored-tail-without-token-numbers", ["C12"], "break",
+  [("yaep.c", "      pl[++pl_curr] = state->pl_tail[i];\n      pl_tok_nums[pl_curr] = state->pl_tail_tok_nums[i];\n", "      pl[++pl_curr] = state->pl_tail[i];\n")], "set_recovery_state/pl-store")
+M("r16-revert-F27-token-from-set-number", ["C12"], "break",
+  [("yaep.c", "	  tok_num = pl_tok_nums[pl_ind];\n	  pl_ind--;		/* l */", "	  pl_ind--;		/* l */\n	  tok_num = pl_ind;")], "[set-number]")
 
 # ---- R8 / R2f (C16, C19) ----------------------------------------------------------------------------
 M("r8-revert-F14", ["C19", "C16"], "break", [("hashtab.cpp", "		  entry_ptr = first_deleted_entry_ptr;\n		  *entry_ptr = EMPTY_ENTRY;", "		  entry_ptr = first_deleted_entry_ptr;\n		  *entry_ptr = DELETED_ENTRY;")], "find_hash_table_entry~")
